@@ -239,23 +239,6 @@ func runC16(x *Ctx) {
 		}
 		return false
 	}
-	dirtyReaders := map[uint64]bool{}
-	curFault := map[int]bool{}
-	s.OnMsg = func(s *sim.Sim, t *sim.Task, m sim.Msg) {
-		switch m.Kind {
-		case sim.KNote:
-			curFault[t.ID] = m.B == 1
-		case sim.KRelease:
-			if m.A == sim.ObjGzipReader && curFault[t.ID] {
-				dirtyReaders[m.B] = true
-			}
-		case sim.KAcquired:
-			// identity-dependent: only with the deterministic providers (sync.Pool's choice is not ours)
-			if m.A == sim.ObjGzipReader && dirtyReaders[m.B] && sc.Provider != "syncpool" {
-				s.Counts["reach:pooled-reader-reused-after-failed-body"] = 1
-			}
-		}
-	}
 	for ci, cl := range sc.Clients {
 		cl := cl
 		s.Go(fmt.Sprintf("client%d", ci), func(t *sim.Task) {
@@ -372,6 +355,23 @@ func runC16(x *Ctx) {
 	for _, e := range s.Events() {
 		if e.Kind == "use-after-release" {
 			x.Violate("use-after-release", "request %d: a released %s was used without being acquired and Reset again", e.Req, e.S)
+		}
+	}
+	// reach probe, by construction rather than by object identity (addresses are reused after GC, which
+	// made an identity-based probe differ between executions of the same tape): with a provider that
+	// keeps released readers, a gzip request that follows a faulted gzip request of the same client
+	// gets the reader the faulted one left behind
+	if sc.Provider == "lifo" || (sc.Provider == "bounded" && sc.RCap >= 1) {
+		for _, cl := range sc.Clients {
+			dirty := false
+			for _, r := range cl {
+				if r.Coding == "gzip" && dirty && r.Fault == "" {
+					s.Counts["reach:pooled-reader-reused-after-failed-body"] = 1
+				}
+				if r.Coding == "gzip" && r.Fault != "" {
+					dirty = true
+				}
+			}
 		}
 	}
 	x.Res.Nontrivial = faults > 0 && len(all) >= 2
